@@ -62,6 +62,11 @@ def run(rep, idx, tier):
     env = {"n": n, "MODE": MODE, "INPUT": INPUT, "OUTPUT": OUTPUT, "SETCLR": SETCLR,
            "pin": c.parse("self.pins[n]", {"n": n})}
     env["out"] = c.parse("OUTPUT.f.pin[n].data", env)
+    # C16.5 (below) verifies that the Output fields and the SetClr set/clr fields are one bit wide (unsigned(1)); with that
+    # fact `x.eq(a & b)` and `with m.If(a & b): x.eq(1)` are the same function, so declare these ports Boolean
+    bits = [c.show(c.parse(tx, env)) for tx in ("SETCLR.f.pin[n].set.w_data", "SETCLR.f.pin[n].clr.w_data", "OUTPUT.f.pin[n].data",
+                                              "OUTPUT.f.pin[n].set", "OUTPUT.f.pin[n].clr", "pin.i", "pin.o", "pin.oe")]
+    c = get_ctx(idx, "gpio:Peripheral.elaborate", extra_bits=tuple(bits))
 
     # ---- C16.1 synchroniser chain ------------------------------------------------------------
     folds = [f for f in c.t.folds.values() if c.norm(f.init) == c.parse("pin.i", env)]
